@@ -226,7 +226,8 @@ def default_ports() -> List[int]:
     return list(inspect.signature(SwitcherBridge.__init__).parameters["broadcast_ports"].default)
 
 
-CALLBACK_FORMS = ("function", "lambda", "method", "partial", "callable-object", "start-again", "other-bridge", "optional-second-parameter")
+CALLBACK_FORMS = ("function", "lambda", "method", "partial", "callable-object", "start-again", "other-bridge", "optional-second-parameter",
+                  "copy-dropped")
 
 
 def callback_in_form(form: str, target):
@@ -332,6 +333,13 @@ async def _run_bridge_sequence(nports: int, arrivals: List[Tuple[int, str]], fai
                 await other.stop()
             except Exception:  # noqa
                 pass
+            await asyncio.sleep(0)
+        if cbform == "copy-dropped":    # a copy.copy() of the running bridge is made and dropped again: an object that goes away takes
+            import copy                 # nothing of this bridge's with it
+            import gc as _gc
+            c2 = copy.copy(bridge)
+            del c2
+            _gc.collect()
             await asyncio.sleep(0)
         if restart:                 # a bridge that has been stopped and started again is a running bridge like any other
             await bridge.stop()
